@@ -404,10 +404,11 @@ func (stub *stub) Start(ctx context.Context) (retErr error) {
 	}
 
 	closedC := make(chan struct{})
+	doneC := stub.doneC
 	clientOpts := []ttrpc.ClientOpts{
 		ttrpc.WithOnClose(func() {
 			close(closedC)
-			stub.connClosed()
+			stub.connClosed(doneC)
 		}),
 	}
 	rpcc := ttrpc.NewClient(conn, append(clientOpts, stub.clientOpts...)...)
@@ -592,9 +593,13 @@ func (stub *stub) register(ctx context.Context) error {
 }
 
 // Handle a lost connection.
-func (stub *stub) connClosed() {
+func (stub *stub) connClosed(doneC chan struct{}) {
 	stub.Lock()
-	stub.close()
+	// only tear down the session this notification belongs to: it may arrive
+	// late, when the stub has already been started again on a new connection
+	if stub.doneC == doneC {
+		stub.close()
+	}
 	stub.Unlock()
 	if stub.onClose != nil {
 		stub.onClose()
